@@ -248,6 +248,55 @@ mutant("im-out-of-range-indexes-table", ["C12"], [("cpu.go", """	switch cpu.IM {
 	case 0:
 		// Interrupt with IM 0""")], note="table-driven dispatch on IM without range check")
 
+# ---- C10 -------------------------------------------------------------------
+mutant("package-level-decode-cache", ["C10"], [("cpu.go", """// fetchM1 fetches a byte for M1 cycle.
+func (cpu *CPU) fetchM1() uint8 {
+	c := cpu.Memory.Get(cpu.PC)""", """var m1cache [65536]int16
+
+// fetchM1 fetches a byte for M1 cycle.
+func (cpu *CPU) fetchM1() uint8 {
+	c := cpu.Memory.Get(cpu.PC)
+	if v := m1cache[cpu.PC]; v != 0 && cpu.PC >= 0xf000 {
+		c = uint8(v - 1)
+	}
+	m1cache[cpu.PC] = int16(c) + 1""")], note="package-level opcode cache keyed by PC, used only in the top 4 KiB; shared by all CPUs, racy")
+mutant("hidden-ei-delay-field", ["C10"], [("z80.go", """	// HALT indicates whether the last Run() is terminated with HALT op.
+	HALT bool
+}""", """	// HALT indicates whether the last Run() is terminated with HALT op.
+	HALT bool
+
+	afterEI bool
+}"""), ("op_ctrl.go", """	cpu.IFF1 = true
+	cpu.IFF2 = true""", """	cpu.IFF1 = true
+	cpu.IFF2 = true
+	cpu.afterEI = true"""), ("cpu.go", """	if cpu.Interrupt != nil && cpu.processInterrupt() {
+		cpu.Interrupt = nil
+		return
+	}""", """	if cpu.afterEI {
+		// interrupts are sampled one instruction after EI
+		cpu.afterEI = false
+		if cpu.Interrupt != nil && cpu.Interrupt.Type != NMIType {
+			cpu.executeOne()
+			return
+		}
+	}
+	if cpu.Interrupt != nil && cpu.processInterrupt() {
+		cpu.Interrupt = nil
+		return
+	}""")], note="correct EI delay, but kept in an unexported CPU field: a CPU rebuilt from States right after EI with a request pending differs")
+mutant("package-level-scratch-register", ["C10"], [("cpu.go", """func (cpu *CPU) readU16(addr uint16) uint16 {
+	l := cpu.Memory.Get(addr)
+	h := cpu.Memory.Get(addr + 1)
+	return toU16(l, h)
+}""", """var scratchLo uint8
+
+func (cpu *CPU) readU16(addr uint16) uint16 {
+	scratchLo = cpu.Memory.Get(addr)
+	h := cpu.Memory.Get(addr + 1)
+	return toU16(scratchLo, h)
+}""")], note="package-level temporary between the two reads of a 16-bit load: only wrong if another CPU runs in between")
+
+
 def run(cmd, **kw):
     return subprocess.run(cmd, stdout=subprocess.PIPE, stderr=subprocess.STDOUT, text=True, **kw)
 
